@@ -30,6 +30,8 @@ def judge(case):
     restarts = 0
     if not v and setup.kind in traces.IDEAL and setup.prog == "none":
         for k in range(1, min(tr["n"], 4)):
+            if not traces.admissible_state(tr["m"][k], tr["x"][k], tr["T"][k]):
+                break  # C18's business
             sub = dict(case, x0=tr["x"][k], amount=tr["m"][k], T=tr["T"][k], steps=2, basis="weight",
                        tref_abs=case.get("tref_abs", case["T"] + case.get("tref_offset", 0.0)))
             if isinstance(case["mode"], (list, tuple)) and case["mode"][0] == "T" and case["mode"][1] <= 0:
@@ -78,6 +80,7 @@ def main(tier, seed):
 
 
 def replay(body):
+    U.install_fit_memo()
     r1 = judge(body["case"])
     r2 = judge(body["case"])
     assert core.jsonable(r1["viol"]) == core.jsonable(r2["viol"]), "replay is not deterministic"
